@@ -190,20 +190,35 @@ def centred (len : α) (ps : List α) : List α :=
   | some last => let pad := (len - last) / 2; ps.map (· + pad)
   | none => ps
 
+/-- `resample_at_positions` -/
+def Curve.resampleAt (c : Curve α P) (positions : List α) : Option (Curve α P) :=
+  match positions.mapM (fun l => (c.atLength l).map (·.point)) with
+  | some pts => Curve.fromPoints pts c.tol c.closed c.blend
+  | none => none       -- the Rust code unwraps: a position outside [0, L] panics
+
 /-! ### Ramer–Douglas–Peucker and gap filling (points.rs) -/
 
-/-- distance from `p` to the line through `a` with direction `b - a` (`sp.projection(p) - p`) -/
+/-- distance from `p` to the infinite line through `a`, `b` — what `Rdp::simplify` used BEFORE the
+    fix (kept for the regression witnesses) -/
 def lineDist (a b p : P) : α :=
   let n := vnormalize (VecLike.sub b a)
   let t := VecLike.dot n (VecLike.sub p a)
   vnorm (VecLike.sub (VecLike.add a (VecLike.smul t n)) p)
 
-/-- index (relative to the list) and distance of the farthest point from the line `a b`,
-    first maximum wins, starting from `(0, 0)` -/
+/-- distance from `p` to the segment `a b` (coincident end points: distance to that point) -/
+def segDist (a b p : P) : α :=
+  let ab := VecLike.sub b a
+  let ap := VecLike.sub p a
+  let len2 := VecLike.dot ab ab
+  let t := if 0 < len2 then smax (smin (VecLike.dot ap ab / len2) 1) 0 else 0
+  vnorm (VecLike.sub ap (VecLike.smul t ab))
+
+/-- index and distance of the farthest point from the segment `a b`, first maximum wins,
+    starting from `(0, 0)` -/
 def farthest (a b : P) : List P → Nat → Nat → α → Nat × α
   | [], _, bi, bd => (bi, bd)
   | p :: r, i, bi, bd =>
-    let d := lineDist a b p
+    let d := segDist a b p
     if bd < d then farthest a b r (i + 1) i d else farthest a b r (i + 1) bi bd
 
 /-- `Rdp::simplify` on the index range `[i0, i1]`; returns the kept indices strictly inside -/
@@ -215,7 +230,10 @@ def rdpKeep (pts : List P) (tol : α) : Nat → Nat → Nat → List Nat
     let b := pts.getD i1 default
     let inner := (pts.drop (i0 + 1)).take (i1 - i0 - 1)
     let (k, d) := farthest a b inner (i0 + 1) 0 0
-    if tol < d then rdpKeep pts tol fuel i0 k ++ [k] ++ rdpKeep pts tol fuel k i1 else []
+    let ab := VecLike.sub b a
+    -- coincident end points (a closed ring) are always split at the farthest vertex
+    let ring := !decide (0 < VecLike.dot ab ab) && decide (0 < d)
+    if decide (tol < d) || ring then rdpKeep pts tol fuel i0 k ++ [k] ++ rdpKeep pts tol fuel k i1 else []
 
 /-- `ramer_douglas_peucker` -/
 def rdp (pts : List P) (tol : α) : List P :=
